@@ -598,14 +598,15 @@ class NetworkXPropertyGraph(ABCPropertyGraph, NetworkXMixin):
             raise PropertyGraphQueryException(node_id=node_id, graph_id=self.graph_id,
                                               msg="Unable to add node - a node with this ID exists")
 
+        # the identity of the new node is what the caller asked for, whatever the properties
+        # (e.g. read from another node) carry under these keys
+        own_props = None if props is None else \
+            {k: v for k, v in dict(props).items() if k not in (ABCPropertyGraph.GRAPH_ID, ABCPropertyGraph.NODE_ID,
+                                                               ABCPropertyGraph.PROP_CLASS)}
         int_id = self.storage.add_blank_node_to_graph(self.graph_id, Class=label,
                                                       NodeID=node_id)
-        if props is not None:
-            # the identity of the new node is what the caller asked for, whatever the properties
-            # (e.g. read from another node) carry under these keys
-            self.storage.get_graph(self.graph_id).nodes[int_id].update(
-                {k: v for k, v in props.items() if k not in (ABCPropertyGraph.GRAPH_ID, ABCPropertyGraph.NODE_ID,
-                                                              ABCPropertyGraph.PROP_CLASS)})
+        if own_props is not None:
+            self.storage.get_graph(self.graph_id).nodes[int_id].update(own_props)
 
     def add_link(self, *, node_a: str, rel: str, node_b: str, props: Dict[str, Any] = None) -> None:
         """
